@@ -122,7 +122,7 @@ PROPS["C17"] = {
     "technique": "Lean 4: evaluation at any root of X^n+1 is a ring map on coefficient lists, hence every Babai step / the whole loop preserves f*G-g*F for every quotient; idempotence from the exit condition; Z_p table obligations by kernel evaluation; both Rust reductions executed on the same inputs with an exact big-integer oracle",
     "rule": "ops = Z_p element operations on boundary/random operands, Z_p transform of unit vectors for every length and products vs the exact integer product, babai_reduce_i32 and babai_reduce_bigint on (F,G) = (F0,G0) + k*(f,g) for n = 2..256 (thorough: ..1024) with quotients from 0 to just below 2^24, the zero-reducing case, plus a traced op per case whose invariant is recomputed exactly by the Lean model; distinct by op line; judged: both versions agree, f*G-g*F unchanged over Z (i128 schoolbook), second reduction is the identity",
     "exhaustive": {"quick": (False, ""), "thorough": (False, "")},
-    "level_text": "Machine-checked for all n and all integer polynomials: a reduction step with ANY quotient k, and the whole loop with any sequence of quotients, leaves f*G - g*F unchanged in Z[X]/(X^n+1); the loop's exit condition makes a second reduction the identity; the 30-bit prime's twiddle tables and n^-1 constants are consistent, and on them the Z_p transform pair is exact: intt(ntt a) = a and intt(ntt a . ntt b) = a*b mod (X^n+1, p) for every n = 2..1024 (zp_intt_ntt, zp_ntt_mul_exact), and the whole chain U32Field::new -> fft -> pointwise product -> ifft -> balanced_value returns exactly the integer product k*f whenever its coefficients are within +-(p-1)/2, without overflow in either build mode (zp_product_is_the_integer_product). NOT proved: that the two floating-point quotient computations (32-bit and big-integer path) agree and that the 32-bit path stays inside its exactness window for all inputs below 2^24 - both functions are executed side by side on every run.",
+    "level_text": "Machine-checked for all n and all integer polynomials: a reduction step with ANY quotient k, and the whole loop with any sequence of quotients, leaves f*G - g*F unchanged in Z[X]/(X^n+1) - at every root of X^n+1 in every commutative ring and, by ev_ext, coefficient for coefficient (reduction_preserves_ntru_exact); the step as the big-integer path codes it (karatsuba then reduce_by_cyclotomic) is the modelled step for n = 2^j (babai_step_as_coded); the loop's exit condition makes a second reduction the identity; the 30-bit prime's twiddle tables and n^-1 constants are consistent, and on them the Z_p transform pair is exact: intt(ntt a) = a and intt(ntt a . ntt b) = a*b mod (X^n+1, p) for every n = 2..1024 (zp_intt_ntt, zp_ntt_mul_exact), and the whole chain U32Field::new -> fft -> pointwise product -> ifft -> balanced_value returns exactly the integer product k*f whenever its coefficients are within +-(p-1)/2, without overflow in either build mode (zp_product_is_the_integer_product). NOT proved: that the two floating-point quotient computations (32-bit and big-integer path) agree and that the 32-bit path stays inside its exactness window for all inputs below 2^24 - both functions are executed side by side on every run.",
     "level_note": "Trusted: Lean kernel + Mathlib ring tactics; translator (p, tables); the float quotient is an oracle parameter of the model (universally quantified in the theorems).",
     "trusted_base": TB_COMMON + ["num-bigint modelled by Lean Int; num-complex / f64 FFT quotient computation is a universally quantified parameter of the theorems"],
     "assumptions": [],
@@ -133,9 +133,9 @@ PROPS["C17"] = {
 PROPS["C04"] = {
     "level": "proof",
     "technique": "Lean 4: NTRUSolve tower (Bezout base case, lifting step, Babai step) preserves the NTRU equation in any commutative ring; public-key relation from the C11 development; per-key exact re-check (model and independent harness oracle); guard constants re-extracted",
-    "rule": "ops = keygen from seeds (2+1 per variant quick, 48 thorough) through the public API, judged by an exact big-integer oracle (f*G-g*F = q over Z, h*f = g mod q, f invertible, all tree leaves in [sigma_min, sigma_max]); for each key a traced op whose exact checks are recomputed by the Lean model (NTRU equation over Z, ntt h . ntt f = ntt g, ntt f nowhere zero); the tower on coefficient lists (field_norm, lift_poly, galois_adjoint, lift_step) and the base case ntru_base a b = the extended Euclid loop on big integers (all pairs in [-6,6]^2, Fibonacci pairs, random operands of 8..4000 bits, a third with a common factor) against the model and an exact oracle; distinct by op line",
+    "rule": "ops = keygen from seeds (2+1 per variant quick, 48 thorough) through the public API, judged by an exact big-integer oracle (f*G-g*F = q over Z, h*f = g mod q, f invertible, all tree leaves in [sigma_min, sigma_max]); for each key a traced op whose exact checks are recomputed by the Lean model (NTRU equation over Z, ntt h . ntt f = ntt g, ntt f nowhere zero); the tower on coefficient lists (field_norm, lift_poly, galois_adjoint, lift_step), karatsuba on every length the real function accepts up to 128 (thorough 1024) and reduce_cyc on lengths around the multiples of n, and the base case ntru_base a b = the extended Euclid loop on big integers (all pairs in [-6,6]^2, Fibonacci pairs, random operands of 8..4000 bits, a third with a common factor) against the model and an exact oracle; distinct by op line",
     "exhaustive": {"quick": (False, ""), "thorough": (False, "")},
-    "level_text": "Machine-checked algebra (any commutative ring, so all degrees and inputs): Bezout base case, the lifting step F = F'(x^2) g(-x), G = G'(x^2) f(-x) and every Babai step produce/preserve solutions of f*G - g*F = q; ntt h . ntt f = ntt g implies h*f = g in Z_q[X]/(X^n+1). On coefficient lists: field_norm, lift_next_cyclotomic and galois_adjoint (models compared with the Rust functions) are N, f(X^2), f(-X) at every root of X^n+1 (tower_maps), the lifting step is sound (lift_step_sound), and a model of the whole NTRUSolve recursion — extended gcd and the Babai quotients of every level as parameters — returns only solutions of the NTRU equation, for every depth (ntru_solve_sound). The extended Euclid loop of math.rs::xgcd itself (model with truncating division, terminating by |r| decreasing) satisfies Bezout's identity and returns the gcd up to sign for all integers (xgcd_bezout), so with it only the Babai quotients remain a parameter (ntru_solve_sound_with_xgcd) and an accepted base pair has coprime inputs and solves the equation (ntru_base_accepts_coprime). Every generated key is re-checked exactly (over Z) by the model and the harness. NOT proved: losslessness of the i32/i16 narrowing steps for every seed and the leaf range (two NTRU-lattice Gram-Schmidt facts outside this formalisation); leaves are range-checked numerically per key. Seeds whose candidate stream touches a guard of ntru_gen (zero NTT slot per slot, Gram-Schmidt norm next to the bound, coefficients at the range limits) are replayed from corpus/special_seeds.txt, so a weakened guard yields a concrete invalid key; the translator also pins the guards' textual shape and constants.",
+    "level_text": "Machine-checked algebra (any commutative ring, so all degrees and inputs): Bezout base case, the lifting step F = F'(x^2) g(-x), G = G'(x^2) f(-x) and every Babai step produce/preserve solutions of f*G - g*F = q; ntt h . ntt f = ntt g implies h*f = g in Z_q[X]/(X^n+1). On coefficient lists: field_norm, lift_next_cyclotomic and galois_adjoint (models compared with the Rust functions) are N, f(X^2), f(-X) at every root of X^n+1 (tower_maps), the lifting step is sound (lift_step_sound), and a model of the whole NTRUSolve recursion — extended gcd and the Babai quotients of every level as parameters — returns only solutions of the NTRU equation, for every depth (ntru_solve_sound). The extended Euclid loop of math.rs::xgcd itself (model with truncating division, terminating by |r| decreasing) satisfies Bezout's identity and returns the gcd up to sign for all integers (xgcd_bezout), so with it only the Babai quotients remain a parameter (ntru_solve_sound_with_xgcd) and an accepted base pair has coprime inputs and solves the equation (ntru_base_accepts_coprime). vector_karatsuba (model with its three half-size products, overlapping recombination and schoolbook base case) is the polynomial product on operands of length 2^k for every k (karatsuba_is_the_product), and a.karatsuba(b).reduce_by_cyclotomic(n) is the negacyclic product coefficient for coefficient (code_product_is_negacyclic): integer lists of length n are determined by their values at the roots of X^n+1 (ev_ext, through Z[X]/(X^n+1)), which also turns the soundness of NTRUSolve into an equality of coefficient lists (ntru_solve_exact) and shows that the lifting step as coded is the modelled one (lift_step_as_coded). Every generated key is re-checked exactly (over Z) by the model and the harness. NOT proved: losslessness of the i32/i16 narrowing steps for every seed and the leaf range (two NTRU-lattice Gram-Schmidt facts outside this formalisation); leaves are range-checked numerically per key. Seeds whose candidate stream touches a guard of ntru_gen (zero NTT slot per slot, Gram-Schmidt norm next to the bound, coefficients at the range limits) are replayed from corpus/special_seeds.txt, so a weakened guard yields a concrete invalid key; the translator also pins the guards' textual shape and constants.",
     "level_note": "Trusted: Lean kernel + Mathlib; translator (guard shapes/constants in ntru_gen); floating-point parts of keygen (Gram-Schmidt norm, Babai quotients, LDL tree) are not modelled: their integer consequences are checked per key.",
     "trusted_base": TB_COMMON + ["floating-point parts of key generation are not modelled; num-bigint modelled by Lean Int"],
     "assumptions": ["sampled seeds; keygen defects that need a rare seed are covered only through the translator's pattern on the guards"],
